@@ -142,13 +142,20 @@ class C16:
         ops.append({'op': 'exp', 'o': -1})
         ops.append({'op': 'exp', 'o': 0})
         return {'property': self.PROPERTY, 'config': 'fault_injecting' if faulty else 'fault_free',
-                'primary': list(primary), 'ops': ops}
+                'primary': list(primary), 'ops': ops, 'warnings': 'error' if st['env'].random() < 0.1 else 'default'}
 
     def summarize(self, plan):
         return {'config': plan['config'], 'primary': spell(*plan['primary']), 'ops': plan['ops']}
 
     # ---------------------------------------------------------------- execution
     def execute(self, plan: dict) -> dict:
+        import warnings
+        with warnings.catch_warnings():
+            # interpreter environment knob: 10% of the runs treat every warning as an error (python -W error)
+            warnings.simplefilter('error' if plan.get('warnings') == 'error' else 'ignore')
+            return self._execute(plan)
+
+    def _execute(self, plan: dict) -> dict:
         import kernpy as kp
         log = EventLog()
         viol = []
